@@ -1,13 +1,16 @@
 ----------------------------- MODULE Gen_System -----------------------------
 EXTENDS System
-CONSTANTS NClasses, Homes, Nla, RunCode, ZeroK
+CONSTANTS NClasses, Homes, Nla, RunCode, ZeroK, WithU
 VARIABLE sys
 NoFault == [kind |-> NoneS, name |-> NoneS]
-Init == sys \in UNION {UNION {{[classes |-> s.classes, nla |-> k, fault |-> f] : f \in (IF k = NoneS THEN Faults(s) ELSE {NoFault})} : k \in Nla} : s \in Systems(NClasses, Homes, ZeroK)}
+Init == sys \in UNION {UNION {{[classes |-> s.classes, nla |-> k, nlaDep |-> NoneS, fault |-> f] : f \in (IF k = NoneS THEN Faults(s) ELSE {NoFault})} : k \in Nla} : s \in Systems(NClasses, Homes, ZeroK)}
+               \cup (IF WithU THEN {[classes |-> s.classes, nla |-> s.nla, nlaDep |-> s.nlaDep, fault |-> NoFault] : s \in SystemsU(NClasses, Homes, ZeroK)} ELSE {})
+NlaExpect == CASE sys.nla \in {"pair", "mixed"} -> <<"u", "w">> [] sys.nla \in {"one", "guess"} -> <<"u">> [] OTHER -> <<>>
 Next == UNCHANGED sys
 Spec == Init /\ [][Next]_sys
 Expect == [i \in DOMAIN sys.classes |-> [name |-> sys.classes[i].name, type |-> VarType(sys.classes[i]),
              A |-> Seen(sys, sys.classes[i].name, "A", 6), B |-> Seen(sys, sys.classes[i].name, "B", 6),
              rate |-> IF sys.classes[i].role = "state" THEN Rate(sys, sys.classes[i].name) ELSE Undef]]
+          \o [i \in DOMAIN NlaExpect |-> [name |-> NlaExpect[i], type |-> "algebraic", A |-> Seen(sys, NlaExpect[i], "A", 6), B |-> Seen(sys, NlaExpect[i], "B", 6), rate |-> Undef]]
 Emit == EmitScenario([sys |-> sys, run |-> RunCode, type |-> ExpectedType(sys), expect |-> Expect])
 =============================================================================
